@@ -83,7 +83,9 @@ func (v *VerifC15Round) Accept(inUpdate bool, ccmID string) bool {
 	l := v.life
 	v.Party.lock()
 	r0 := v.r0
-	r0.processed[ccmID] = 1
+	if ccmID != "" {
+		r0.processed[ccmID] = 1 // round0.Update's first statement
+	}
 	r0.processed[verifC15Kick] = 1
 	r0.bh = l.bh
 	r0.preBH = l.preBH
@@ -115,8 +117,18 @@ func (v *VerifC15Round) Accept(inUpdate bool, ccmID string) bool {
 // baseParty.Update forwards it on the party's Err channel.
 func (v *VerifC15Round) Reject(ccmID string) {
 	v.Party.lock()
-	v.r0.processed[ccmID] = 1
+	if ccmID != "" {
+		v.r0.processed[ccmID] = 1
+	}
 	v.Party.Err <- NewError(errors.New("verif: proposal rejected by round0"), "ccm", 0, "", nil)
+	v.Party.unlock()
+}
+
+// Wait stands in for round0.Update deciding to wait (previous block unknown / transactions
+// missing): only the cast message's id is recorded.
+func (v *VerifC15Round) Wait(ccmID string) {
+	v.Party.lock()
+	v.r0.processed[ccmID] = 1
 	v.Party.unlock()
 }
 
